@@ -105,7 +105,7 @@ PROPS = {
         'level': 'proof',
         'technique': 'Verus: every accessor of every packet view free of panics/overflow for any buffer >= minimum size; Kani no-panic harnesses',
         'level_text': 'Layer (a): for every public accessor of every packet view Verus discharges every slice index, range, copy length and arithmetic-overflow obligation under the single precondition len >= minimum size (unbounded buffer length), and termination/progress of the two extension iterators. Layer (b) (receive path of trippy-core) is decided by Kani harnesses on the real functions.',
-        'level_note': 'Trusted: shims (from_be_bytes, to_be_bytes, address conversions), Buffer::get_bytes contract (Kani-discharged). Bounded stand-ins are labelled and not counted. platform/unix.rs socket code and ArrayVec capacity in dispatch_tcp_probe are outside.',
+        'level_note': 'Trusted: shims (from_be_bytes, to_be_bytes, address conversions), Buffer::get_bytes contract (Kani-discharged). Bounded stand-ins are labelled and not counted. The receive-side decode of trippy-core (extract_probe_resp, extract_probe_proto_resp, extract_*, recv_tcp_socket) is verified for every buffer length in unit core_net_build; Extensions::try_from (iterator adapters) and recv_icmp_probe\'s slice of the read length (trusting Socket::read <= buffer length) are outside, as is platform/unix.rs. The ArrayVec of pending TCP probes is modelled (D-C16b).',
         'units': ['pkt_views', 'core_strategy', 'core_net_build'],
         'kani': {'quick': PKT_NOPANIC_HARNESSES,
                  'thorough': PKT_NOPANIC_HARNESSES + ['k6_recv_nopanic_icmp', 'k6_recv_nopanic_tcp']},
@@ -127,7 +127,7 @@ PROPS = {
         'level': 'proof',
         'technique': 'Verus contracts on every link of the chain next_probe -> do_send -> recv_response/complete_probe -> publish_trace -> StateUpdater::apply/update_for_probe; composition across loop iterations argued in DESIGN.md',
         'level_text': 'Each link between the network and the published statistics is proved: a probe handed to the network is recorded Awaited with its ttl/sequence/round/send time (whole-buffer frame); only a genuine response completes exactly that slot with responder address, receive time and ICMP type copied unchanged; transient send failures mark the slot Failed; publish_trace publishes exactly the issued prefix of the buffer; update_for_probe adds exactly one sent (plus one received with rtt = receive - send for Complete, plus one failed for Failed, nothing for NotSent/Skipped) to exactly the hop of the probe\'s ttl.',
-        'level_note': 'The composition over the iterations of Strategy::run and over rounds is by the data-structure invariants (TracerState::wf, FlowState::wf) and is not mechanised as one theorem. Real sockets, kernel, SystemTime and that Channel::recv_probe hands over every delivered packet are outside. Wire -> Response is C02/C04/C11.',
+        'level_note': 'The composition over the iterations of Strategy::run and over rounds is by the data-structure invariants (TracerState::wf, FlowState::wf) and is not mechanised as one theorem. Also under contract since the net-layer units were written (unit core_net_build): the decode of a received datagram into a Response (extract_probe_resp: kind, code, responder; recv_tcp_socket: socket state -> TcpReply / TcpRefused / TimeExceeded), Channel::recv_probe (a response read from the receive socket is never discarded; the ICMP socket is only read when no TCP attempt produced a response) and StateUpdater::apply (per-hop totals are the sums over the round). Outside: real sockets, kernel, SystemTime, Channel::recv_tcp_sockets / recv_icmp_probe glue (iterator adapters, io::ErrorKind).',
         'units': ['core_strategy', 'core_state', 'core_net_build'],
         'assumptions': ['floating-point statistics are abstracted (T6)'],
         'explanation': 'probe outcome bookkeeping',
@@ -175,7 +175,7 @@ PROPS = {
         'level': 'proof',
         'technique': 'Verus contracts on probe_*_data, ProtocolStrategyResponse::from, validate against tables written from the property, plus round-trip / rejection lemmas; Kani round trip of real bytes through dispatch -> ICMP quotation -> recv_icmp_probe',
         'level_text': 'probe_icmp_data/probe_udp_data/probe_tcp_data are proved equal to the carrier table spec_probe_fields for every supported configuration (and never reach unimplemented!()); ProtocolStrategyResponse::from recovers the sequence from exactly the prescribed field (spec_recover_sequence); validate accepts exactly quotations with this tracer\'s destination, fixed port(s) and, for Dublin/IPv6, the marker. Lemma L1: for every supported configuration, every issuable sequence and round, the quotation of the probe is validated, passes the trace-id check and yields that sequence; L2: other destination, other fixed port or missing marker is rejected. The wire map assumed by L1 (ports->ports, IP id->identifier, UDP checksum field->actual checksum, UDP length->payload length) is checked on the real builders/parsers by Kani harnesses (bounded).',
-        'level_note': 'Kani round-trip harnesses are bounded (concrete packet size 33, quotation = IP header+8 octets or full datagram, IPv4) and not counted as proved. TCP handshake answers (recv_tcp_socket) need a live socket: only field plumbing. IPv6 quotations: parser functions covered by the no-panic harnesses only.',
+        'level_note': 'Both directions are proved in unit core_net_build for both address families and every size: what dispatch_* hands to the socket (ports, identification, payload length / marker, Paris checksum field, TCP source port) and what extract_probe_proto_resp / extract_* / recv_tcp_socket read back from a quotation or socket state (RFC 768 / 792 / 4443 / 9293 positions); the composition encode -> quote -> decode is the lemma pair in unit core_strategy over spec functions (the Kani round-trip harnesses over real bytes were intractable and are in no tier). The real quoting router is outside.',
         'units': ['core_strategy', 'core_net_build'],
         'kani': {'quick': [], 'thorough': []},
         'assumptions': [],
@@ -245,7 +245,7 @@ PROPS = {
         'level': 'proof',
         'technique': 'Verus contracts on run (loop invariant on the round counter), finished, do_send, send_request (TCP re-issue loop with invariant and decreases), fail_probe, reissue_probe',
         'level_text': 'finished is exactly round >= n; run\'s loop invariant keeps round <= n and success is returned only with round == n, every round increment being one publish_trace+advance_round (update_round contract), i.e. rounds 0..n-1; do_send turns Error::ProbeFailed into Ok with exactly that slot Failed and returns every other error unchanged; the TCP AddressInUse loop marks the abandoned slot Skipped and re-issues with the next sequence and the same ttl, and terminates (decreases 512 - round size); errors propagate through `?`.',
-        'level_note': 'Partial correctness: termination of run depends on wall time (exec_allows_no_decreases_clause). ErrorMapper::{in_progress, addr_in_use, probe_failed} are proved by the loop-free Kani harness k_error_mapper_tables over every errno 1..=133. Not covered: TracerInner::run/handle_error writing the error through parking_lot::RwLock.',
+        'level_note': 'Partial correctness: termination of run depends on wall time (exec_allows_no_decreases_clause). ErrorMapper::{in_progress, addr_in_use, probe_failed} are proved by the loop-free Kani harness k_error_mapper_tables over every errno 1..=133 and all four IoError variants; Strategy::run keeps `no fatal network error seen` as a loop invariant over a ghost observation of the Network trait; Channel::recv_probe passes receive errors on unchanged. Not covered: the would-block / fatal split inside recv_icmp_probe (io::ErrorKind match; a Kani harness for it was intractable), TracerInner::run/handle_error writing the error through parking_lot::RwLock.',
         'units': ['core_strategy', 'core_net_build'],
         'kani': {'quick': ['k_error_mapper_tables']},
         'assumptions': ['the usize round counter does not overflow (assume in Strategy::run)'],
